@@ -305,6 +305,11 @@ static int runScript(const char* scriptPath, const char* outPath, int tid) {
             if (t.size() > 2) { size_t idx = std::strtoull(t[2].c_str(), 0, 10); res = classify([&]() { cur->frame(f, idx); }); }
             else res = classify([&]() { cur->frame(f); });
         }
+        else if (op == "frameself") {   // frameself <src> [idx]: hand a STORED frame of the same object back to it
+            size_t src = std::strtoull(t[1].c_str(), 0, 10);
+            if (t.size() > 2) { size_t idx = std::strtoull(t[2].c_str(), 0, 10); res = classify([&]() { cur->frame(cur->data().frame(src), idx); }); }
+            else res = classify([&]() { cur->frame(cur->data().frame(src)); });
+        }
         else if (op == "point") { res = classify([&]() { cur->point(unx(t[1])); }); }
         else if (op == "analog") { res = classify([&]() { cur->analog(unx(t[1])); }); }
         else if (op == "pointcol" || op == "analogcol") {
